@@ -47,13 +47,15 @@ MORE = {
              "op_multiply, and the u64 / i64 accumulation of op_add / op_subtract (each fast path is an immediately-invoked closure, lifted "
              "mechanically to a function of its own on every run (R20); it is proved to return exactly the documented cost and the exact sum, "
              "or to hand over to the bignum path, which satisfies the same contract; the repo's `impl Limbs for u64 / i64` is proved to count "
-             "magnitude bytes). The counters / pre-eval instrumentation builds are not under contract (build-differential, outside this "
-             "technique's reach here).",
+             "magnitude bytes). The `counters` diagnostic build of the allocator and of the interpreter (units ALLOC and RUN, variant "
+             "`counters`) is verified against the same contracts as the default build (the observable state does not mention the diagnostic "
+             "fields; update_max_counts / account_* change nothing else). The `pre-eval` instrumentation build (boxed callbacks) is not under "
+             "contract.",
         note=TB + "Atom::as_ref assumed to return the atom's bytes (no-fastpath variant); bignum products / sums / magnitudes are library "
              "assumptions; that the bignum's magnitude size equals the machine integer's magnitude bytes for values below 2^64 is the assumed "
              "library link axiom_limbs_small (the repo's test_limbs_agreement samples it).",
         tech="contract-based deductive verification (Verus): two implementations against one spec function; unit assembled under two feature sets",
-        ref="4/C05, 11.1, 11.7, 11.11, 11.16"),
+        ref="4/C05, 11.1, 11.7, 11.11, 11.16, 11.19"),
     "C10": dict(
         text="Partial proof (Verus) for the operators under contract: if, cons, first, rest, listp, raise, eq, not, any, all, strlen, concat, "
              "sha256, sha256tree (per pair and per byte over the fully expanded tree, whether or not sub-trees are shared), div, divmod, mod, "
